@@ -45,7 +45,7 @@ def init_check(H):
         cx.oblige("C15.init.ones", z3.And(v.shape.eq(V.TRef(x).shape), v.elem([c]) == 1))
         y = cx.fresh_const("y", A.TenS)
         jq = z3.Int("j!q")
-        cx.assume(z3.ForAll([jq], z3.Implies(z3.And(0 <= jq, jq < T.length), T.get(jq).ref != y), patterns=[T.get(jq).ref]))
+        cx.assume(V.forall([jq], z3.Implies(z3.And(0 <= jq, jq < T.length), T.get(jq).ref != y), patterns=[T.get(jq).ref]))
         cx.oblige("C15.init.no_other_key", z3.Not(dom(y)))
     H.explore(body)
 
